@@ -616,6 +616,11 @@ impl Kademlia {
                     "handle `ADD_PROVIDER` message",
                 );
 
+                // `ADD_PROVIDER` is never a valid response to a request of ours.
+                if let Some(query_id) = query_id {
+                    self.engine.register_response_failure(query_id, peer);
+                }
+
                 match (providers.len(), providers.pop()) {
                     (1, Some(provider)) => {
                         let addresses = provider.addresses();
@@ -1173,6 +1178,12 @@ impl Kademlia {
                                     ?error,
                                     "failed to process message",
                                 );
+
+                                // An undecodable response is a failed response, the query must
+                                // not keep waiting for this peer.
+                                if let Some(query_id) = query_id {
+                                    self.engine.register_response_failure(query_id, peer);
+                                }
                             }
                         }
                         QueryResult::ReadFailure { reason } => {
